@@ -111,6 +111,12 @@ def r1_r3(ctx):
                     else:
                         found = f"re-queue happens under '{desc}', which does not imply a remaining budget"
         ctx.check(ok, R1, "_drain_message_queue:requeue-only-with-budget", m, call, "the re-queue is control-dependent on retries_remaining > 0 (the zero branch queues nothing)", found)
+        # the failed entry goes back before the handler first suspends: while it is neither queued nor written it is invisible
+        # to the capacity test and to the order of the queue (a send accepted during the reset would overtake / overfill)
+        for h in oserr:
+            if drain.cfg.dominates(h.id, n.id):
+                aw = [a_ for a_ in drain.awaits_between(h, n) if a_.id != n.id]
+                ctx.check(not aw, R3, "_drain_message_queue:requeue-before-the-handler-suspends", m, call, "nothing is awaited in the OSError handler before the failed entry is back at the head of the queue", f"`{norm_text(aw[0].ast)[:70]}` (line {aw[0].lineno}) is awaited first: a send accepted meanwhile is not counted against the held entry and goes out ahead of it" if aw else "")
     swh = sock_fn(ctx, "send_with_header")
     for n, call in swh.calls("_MessageQueueEntry"):
         v = next((k.value for k in call.keywords if k.arg == "retries_remaining"), call.args[2] if len(call.args) > 2 else None)
@@ -303,6 +309,8 @@ def r5(ctx):
             local = isinstance(pol, ast.Name) and polq is None
             ok = (polname in POLICIES and polq.startswith(SOCKET)) or local
             ctx.check(ok, R, label, m, call, "a command is sent with one of the three socket policies (selection checked by R6)", polq or unparse(pol))
+            if ok and not local and qual.split(".")[-1] != "check_for_updates":
+                ctx.check(polname != "RETRY_CONNECTED", R, label + ":command-lifetime", m, call, "a command keeps its 30 s lifetime (RETRY_IDEMPOTENT / RETRY_NON_IDEMPOTENT): the 1 s connected-only policy is for requests whose answer would be stale - a command sent with it is silently dropped by one write failure or a short outage", polq)
 
 
 # ------------------------------------------------------------------------------------------ R6
